@@ -100,7 +100,7 @@ def gen_case(st, i, tier="quick", op=None):
         elif mode == "res_scalar" and cx == cy:
             attrs["res"] = float(cx)
         dtype = rng.choice(["i4", "i8", "f4", "f8", "u1"])
-        dens = rng.choice([0.02, 0.05, 0.15, 0.3])
+        dens = rng.choice([0.02, 0.05, 0.15, 0.3, 0.3, 0.7, 0.95])     # at 0.7 / 0.95 the value 0 is the rare one
         nprs = np.random.RandomState(rng.getrandbits(32))
         data = np.where(nprs.rand(H, W) < dens, nprs.randint(1, 4, (H, W)), 0)
         if np.dtype(dtype).kind in "if" and rng.random() < 0.3:
